@@ -43,7 +43,16 @@
 (* instance >= 2 s behind its schedule -- discarded.                       *)
 (*   AAcquire(i,a) ADiscard(i) ARelease(i)                                 *)
 (*                                                                         *)
+(* Variables of a shot.  A scenario step's postprocessors capture values   *)
+(* of its response (var/header, var/jsonpath, var/xpath), later steps      *)
+(* render them into their requests.  The storage belongs to ONE execution  *)
+(* of the scenario (a map created in Shoot): vstore[g] is what gun g       *)
+(* captured in the shot in progress, first[g] the token of that shot's     *)
+(* first call.  A later call carries `prev` = what THIS shot captured.     *)
+(*                                                                         *)
 (* Negative controls (all FALSE for the real design):                      *)
+(*   SharedVars  captured values are kept with the shared scenario         *)
+(*               definition: one storage for all instances                 *)
 (*   ShareGun    the factory hands out one gun object to every instance    *)
 (*   InPlace     rendered values are stored in the shared definition       *)
 (*   NoRandLock  the shared random source is entered without its lock      *)
@@ -66,7 +75,9 @@ CONSTANTS Insts, Guns, Toks, MaxShots, KeepLog, ShareGun, InPlace, NoRandLock,
           PerInstance,  \* rps-per-instance
           ShareNested,
           Ammos,        \* ammo objects of the provider's pool ({} = ammo objects not modelled)
-          DoubleRelease
+          DoubleRelease,
+          WithVars,     \* model the variables of a shot (vstore, first)
+          SharedVars
 
 VARIABLES pend,     \* set of <<creator, gun>>: product of the factory not yet bound
           made,     \* guns the factory produced
@@ -95,12 +106,15 @@ VARIABLES pend,     \* set of <<creator, gun>>: product of the factory not yet b
           apool,    \* ammo object -> how many times it sits in the provider's pool / queue
           aholder,  \* ammo object -> instances that hold it (between Acquire and Release)
           ia,       \* instance -> the ammo object it acquired ("nil" = none)
-          iph       \* instance -> idle | have (acquired, not shot yet) | shot
+          iph,      \* instance -> idle | have (acquired, not shot yet) | shot
+          vstore,   \* gun -> the value the shot in progress captured from its first call ("-" = nothing yet)
+          first     \* gun -> token of the first call of the shot in progress ("" = no call yet)
 
 svars == <<holders, inPool, sval, aggq, lines, hs, sph, stale>>
 schvars == <<sched, left, took>>
 avars == <<apool, aholder, ia, iph>>
-vars == <<pend, made, owners, busy, nShoot, shooter, cur, used, defs, view, inCrit, sent, shots, svars, schvars, avars>>
+vvars == <<vstore, first>>
+vars == <<pend, made, owners, busy, nShoot, shooter, cur, used, defs, view, inCrit, sent, shots, svars, schvars, avars, vvars>>
 
 Init ==
     /\ pend = {} /\ made = {}
@@ -129,6 +143,8 @@ Init ==
     /\ aholder = [a \in Ammos |-> {}]
     /\ ia = [i \in Insts |-> "nil"]
     /\ iph = [i \in Insts |-> "idle"]
+    /\ vstore = [g \in Guns |-> "-"]
+    /\ first = [g \in Guns |-> ""]
 
 \* the registered factory builds a NEW gun for every call (ShareGun: a singleton)
 NewGun(c, g) ==
@@ -136,7 +152,7 @@ NewGun(c, g) ==
     /\ \A p \in pend : p[1] # c
     /\ made' = made \cup {g}
     /\ pend' = pend \cup {<<c, g>>}
-    /\ UNCHANGED <<owners, busy, nShoot, shooter, cur, used, defs, view, inCrit, sent, shots, svars, schvars, avars>>
+    /\ UNCHANGED <<owners, busy, nShoot, shooter, cur, used, defs, view, inCrit, sent, shots, svars, schvars, avars, vvars>>
 
 Bind(c, i, g) ==
     /\ <<c, g>> \in pend
@@ -151,7 +167,7 @@ Bind(c, i, g) ==
               /\ IF PerInstance /\ ~ShareNested THEN \A j \in Insts : sched[j] # s
                  ELSE s = CHOOSE x \in Scheds : \A y \in Scheds : x <= y
               /\ sched' = [sched EXCEPT ![i] = s]
-    /\ UNCHANGED <<made, busy, nShoot, shooter, cur, used, defs, view, inCrit, sent, shots, svars, left, took, avars>>
+    /\ UNCHANGED <<made, busy, nShoot, shooter, cur, used, defs, view, inCrit, sent, shots, svars, left, took, avars, vvars>>
 
 \* the instance goroutine (sequential) hands an acquired ammo to ITS gun
 ShootBegin(i, g, gid, t) ==
@@ -169,7 +185,7 @@ ShootBegin(i, g, gid, t) ==
     /\ cur' = [cur EXCEPT ![g] = t]
     /\ used' = IF t = "" THEN used ELSE used \cup {t}
     /\ shots' = shots + 1
-    /\ UNCHANGED <<pend, made, owners, defs, view, inCrit, sent, svars, sched, apool, aholder, ia>>
+    /\ UNCHANGED <<pend, made, owners, defs, view, inCrit, sent, svars, sched, apool, aholder, ia, vvars>>
 
 \* scenario step: the preprocessor draws this call's variables (source[next] under the iterator lock)
 Draw(g, t) ==
@@ -177,7 +193,7 @@ Draw(g, t) ==
     /\ Samples = {} \/ sph[g] = "acq"
     /\ cur' = [cur EXCEPT ![g] = t]
     /\ used' = used \cup {t}
-    /\ UNCHANGED <<pend, made, owners, busy, nShoot, shooter, defs, view, inCrit, sent, shots, svars, schvars, avars>>
+    /\ UNCHANGED <<pend, made, owners, busy, nShoot, shooter, defs, view, inCrit, sent, shots, svars, schvars, avars, vvars>>
 
 \* rand / randString: the shared *rand.Rand
 RandEnter(g) ==
@@ -185,19 +201,26 @@ RandEnter(g) ==
     /\ nShoot[g] > 0 /\ g \notin inCrit
     /\ NoRandLock \/ inCrit = {}
     /\ inCrit' = inCrit \cup {g}
-    /\ UNCHANGED <<pend, made, owners, busy, nShoot, shooter, cur, used, defs, view, sent, shots, svars, schvars, avars>>
+    /\ UNCHANGED <<pend, made, owners, busy, nShoot, shooter, cur, used, defs, view, sent, shots, svars, schvars, avars, vvars>>
 RandExit(g) ==
     /\ g \in inCrit
     /\ inCrit' = inCrit \ {g}
-    /\ UNCHANGED <<pend, made, owners, busy, nShoot, shooter, cur, used, defs, view, sent, shots, svars, schvars, avars>>
+    /\ UNCHANGED <<pend, made, owners, busy, nShoot, shooter, cur, used, defs, view, sent, shots, svars, schvars, avars, vvars>>
 
-\* the call leaves gun g with token p in the payload and m in the templated header / metadata
-Send(g, p, m, nd, nv, scenario) ==
+\* where gun g keeps what its shot captured: its own slot -- or (SharedVars) the one slot of the shared definition
+Slot(g) == IF SharedVars THEN CHOOSE h \in Guns : \A k \in Guns : h <= k ELSE g
+\* the call leaves gun g with token p in the payload and m in the templated header / metadata; a later call of the
+\* shot also carries prev = the value captured from the shot's first call
+Send(g, p, m, nd, nv, scenario, prev) ==
     /\ nShoot[g] > 0 /\ cur[g] \notin {"", "-"} /\ g \notin inCrit
-    /\ sent' = IF KeepLog THEN sent \cup {[gun |-> g, cur |-> cur[g], p |-> p, m |-> m]} ELSE sent
+    /\ sent' = IF KeepLog THEN sent \cup {[gun |-> g, cur |-> cur[g], p |-> p, m |-> m, own |-> first[g], prev |-> prev]} ELSE sent
     /\ defs' = nd /\ view' = nv
     /\ cur' = [cur EXCEPT ![g] = IF scenario THEN "" ELSE @]      \* the next step draws again
     /\ sph' = IF Samples = {} THEN sph ELSE [sph EXCEPT ![g] = "sent"]
+    \* the first call's postprocessors capture its token (the response echoes it)
+    /\ IF WithVars /\ scenario /\ first[g] = ""
+       THEN first' = [first EXCEPT ![g] = cur[g]] /\ vstore' = [vstore EXCEPT ![Slot(g)] = cur[g]]
+       ELSE UNCHANGED vvars
     /\ UNCHANGED <<pend, made, owners, busy, nShoot, shooter, used, inCrit, shots, holders, inPool, sval, aggq, lines, hs, stale, schvars, avars>>
 
 ShootEnd(i, g) ==
@@ -207,10 +230,12 @@ ShootEnd(i, g) ==
     /\ nShoot' = [nShoot EXCEPT ![g] = @ - 1]
     /\ cur' = [cur EXCEPT ![g] = "-"]
     /\ iph' = IF Ammos = {} THEN iph ELSE [iph EXCEPT ![i] = "shot"]
+    /\ first' = [first EXCEPT ![g] = ""]                         \* the shot's variables die with the shot
+    /\ vstore' = IF SharedVars THEN vstore ELSE [vstore EXCEPT ![g] = "-"]
     /\ UNCHANGED <<pend, made, owners, shooter, used, defs, view, inCrit, sent, shots, svars, schvars, apool, aholder, ia>>
 
 (****************************** ammo objects *******************************)
-ncore == <<pend, made, owners, busy, nShoot, shooter, cur, used, defs, view, inCrit, sent, shots, svars, schvars>>
+ncore == <<pend, made, owners, busy, nShoot, shooter, cur, used, defs, view, inCrit, sent, shots, svars, schvars, vvars>>
 
 \* provider.Acquire: any object the provider has ready
 AAcquire(i, a) ==
@@ -241,7 +266,7 @@ ARelease(i) ==
     /\ UNCHANGED ncore
 
 (****************************** samples ************************************)
-core == <<pend, made, owners, busy, nShoot, shooter, cur, used, defs, view, inCrit, sent, shots, schvars, avars>>
+core == <<pend, made, owners, busy, nShoot, shooter, cur, used, defs, view, inCrit, sent, shots, schvars, avars, vvars>>
 
 \* netsample.Acquire at the start of a step: any sample the pool has
 SAcquire(g, s) ==
@@ -293,7 +318,8 @@ AggWrite ==
 (* design level: what the modelled templater sends *)
 Src(g) == IF view[g] = "none" THEN defs ELSE view[g]
 MVal(g) == IF Src(g) = "T" THEN cur[g] ELSE Src(g)
-ModelSend(g) == Send(g, cur[g], MVal(g), IF InPlace THEN MVal(g) ELSE defs, [view EXCEPT ![g] = Src(g)], TRUE)
+ModelSend(g) == Send(g, cur[g], MVal(g), IF InPlace THEN MVal(g) ELSE defs, [view EXCEPT ![g] = Src(g)], TRUE,
+                     IF first[g] = "" THEN "" ELSE vstore[Slot(g)])
 
 Next ==
     \/ \E i \in Insts, g \in Guns : NewGun(i, g) \/ Bind(i, i, g) \/ ShootEnd(i, g)
@@ -325,6 +351,8 @@ ValueIsolation == \A r \in sent : r.p = r.cur /\ r.m = r.cur
 FreshValues == \A r, q \in sent : r # q => (r.m # q.m \/ (r.gun = q.gun /\ r.cur = q.cur))
 \* shared definitions are never altered
 SharedUnaltered == defs = "T"
+\* what a later call of a shot carries from an earlier one is what THIS shot captured
+VarIsolation == \A r \in sent : r.own # "" => r.prev = r.own
 \* rps-per-instance: a schedule object (and its nested parts) belongs to exactly one instance
 SchedOneOwner == PerInstance => \A i, j \in Insts : i # j /\ sched[i] # 0 => sched[i] # sched[j]
 \* ... so that every instance shoots the FULL profile: when its schedule is drained it drew all ProfileK tokens
